@@ -49,13 +49,42 @@ class Job:
   args: dict = dataclasses.field(default_factory=dict)
 
 
+_COVER = set()
+
+
+def _cover_tracer(frame, event, arg):
+  # development aid (VERIF_COVER=<dir>): which lines of /repo's library the
+  # jobs execute; not used by any registered command
+  fn = frame.f_code.co_filename
+  if not fn.startswith('/repo/ai_edge_quantizer') or fn.endswith('_test.py'):
+    return None
+
+  def local(frame, event, arg):
+    if event == 'line':
+      _COVER.add((fn, frame.f_lineno))
+    return local
+  _COVER.add((fn, frame.f_lineno))
+  return local
+
+
 def _run_job(job: Job) -> JobResult:
   t0 = time.time()
+  cover = os.environ.get('VERIF_COVER')
+  if cover:
+    sys.settrace(_cover_tracer)
   try:
     r = job.fn(job)
   except BaseException as e:  # pylint: disable=broad-except
     r = JobResult(job.name, {}, [], [f'harness error: {type(e).__name__}: {e}'],
                   {}, error=traceback.format_exc())
+  finally:
+    if cover:
+      sys.settrace(None)
+      import json as _json
+      os.makedirs(cover, exist_ok=True)
+      with open(os.path.join(cover, f'{os.getpid()}_{abs(hash(job.name))}.json'),
+                'w') as f:
+        _json.dump(sorted(_COVER), f)
   r.wall_s = round(time.time() - t0, 3)
   return r
 
